@@ -1,10 +1,14 @@
 (** C11 - the coordinate-descent model over the reals: one sweep never increases the documented
     objective and keeps the residual consistent, a sweep that leaves the coefficients unchanged
     certifies the first-order (KKT) conditions, and the whole loop returns a point whose reported
-    duality gap bounds its suboptimality.  The tolerance of approx::abs_diff_eq is a parameter [e]
-    of the model instance [RXe e]: for [e = 0] the statements hold for all inputs, for [e > 0] they
-    need that no coefficient lies in the band (0, e] and no non-zero column has squared norm <= e
-    (both are refuted by witnesses for e = 2^-52 at the end of the file). *)
+    duality gap bounds its suboptimality.  The tolerance of approx::abs_diff_eq (still used by the
+    test that skips columns of tiny norm) is the argument [e] of the model instance [RXe e].
+    The sweep proofs are generic in the test [nz] that guards the residual updates: with the exact
+    test `w != 0` of the code as it is ([cd_sweep]) they hold for all inputs and every e >= 0, the
+    literal 2^-52 included; with the test `abs_diff_ne!(w, 0)` of the code before the repair of finding
+    F52 ([cd_sweep_absdiff]) they need that no coefficient lies in the band (0, e], and that condition
+    is shown necessary by a witness.  What remains for e > 0 is the condition of the fixed-point
+    theorem that skipped columns are zero columns (finding F50, witness at the end of the file). *)
 From Coq Require Import List ZArith NArith QArith Qreals Reals Lra Lia Psatz Bool.
 From LinfaVerif Require Import Common.Num Common.NdSum Common.QF Common.Convex C11.Model C11.Proofs.
 Import ListNotations.
@@ -122,6 +126,24 @@ Proof.
   - apply scaled_add_R.
 Qed.
 
+(** ... and with the exact test `t != 0` for every coefficient *)
+Lemma nonzero_R t : nonzero R_ops t = negb (Reqb t 0).
+Proof. reflexivity. Qed.
+Lemma exact_update r t x : length x = length r ->
+  (if nonzero R_ops t then scaled_add R_ops r t x else r) = vadd r (vscale t x).
+Proof.
+  intros L. rewrite nonzero_R. destruct (Reqb t 0) eqn:E; simpl.
+  - apply Reqb_true in E. subst t. now rewrite vadd_vscale0.
+  - apply scaled_add_R.
+Qed.
+Lemma exact_update_opp r t x : length x = length r ->
+  (if nonzero R_ops t then scaled_add R_ops r (opp R_ops t) x else r) = vadd r (vscale (- t) x).
+Proof.
+  intros L. rewrite nonzero_R. destruct (Reqb t 0) eqn:E; simpl.
+  - apply Reqb_true in E. subst t. replace (- 0) with 0 by ring. now rewrite vadd_vscale0.
+  - apply scaled_add_R.
+Qed.
+
 (* ------------------------------------------------------------------------------------------- *)
 (** * the coordinate update minimises its coordinate *)
 
@@ -149,8 +171,15 @@ Let l2 := nF * (1 - l1r) * pen.
 Hypothesis H1 : 0 <= l1.
 Hypothesis H2 : 0 <= l2.
 Hypothesis He : 0 <= e.
+(** the guard of the residual updates and the coefficients for which it behaves like `t != 0` *)
+Variable nz : R -> bool.
+Variable good : R -> Prop.
+Hypothesis Hnz : forall r t x, good t -> length x = length r ->
+  (if nz t then scaled_add R_ops r t x else r) = vadd r (vscale t x).
+Hypothesis Hnz_opp : forall r t x, good t -> length x = length r ->
+  (if nz t then scaled_add R_ops r (opp R_ops t) x else r) = vadd r (vscale (- t) x).
 
-Notation sweep := (cd_sweep R_ops (RXe e) cc l1r pen nF).
+Notation sweep := (cd_sweep_gen R_ops (RXe e) cc l1r pen nF nz).
 
 Lemma objective_cons c cols y t th k : length c = length y -> Forall (fun q => length q = length y) cols ->
   objective (c :: cols) y (repeat l1 (S k)) (repeat l2 (S k)) (t :: th)
@@ -162,9 +191,9 @@ Qed.
 (** the sweep over a suffix of the columns; [y] is the target seen by that suffix *)
 Lemma sweep_spec : forall cols w y wmax dwmax w2 r2 m,
   Forall (fun c => length c = length y) cols -> length w = length cols ->
-  band_free e w ->
+  Forall good w ->
   sweep cols (map (fun c => sq c) cols) w (residual cols y w) wmax dwmax = (w2, (r2, m)) ->
-  band_free e w2 ->
+  Forall good w2 ->
   length w2 = length cols /\ r2 = residual cols y w2 /\
   objective cols y (repeat l1 (length cols)) (repeat l2 (length cols)) w2
   <= objective cols y (repeat l1 (length cols)) (repeat l2 (length cols)) w.
@@ -174,7 +203,7 @@ Proof.
   - destruct w as [|wj w]; try discriminate. simpl in Lw.
     inversion HL as [|? ? Lx HL']; subst. inversion Bw as [|? ? Bj Bw']; subst.
     assert (Ll : length (lin (length y) cols w) = length y) by (apply lin_length; auto).
-    cbn [map cd_sweep] in E.
+    cbn [map cd_sweep_gen] in E.
     destruct (abs_diff_eq R_ops (RXe e) (sq xj) (zero R_ops)) eqn:Sk.
     + (* skipped column: coefficient and residual untouched *)
       rewrite residual_cons in E by auto.
@@ -194,7 +223,7 @@ Proof.
       assert (Lr : length r = length y).
       { unfold r, residual. rewrite vsub_length; auto. symmetry. apply lin_length. constructor; auto. }
       change (zero R_ops) with 0 in E.
-      rewrite (guarded_update e r wj xj He Bj ltac:(lia)) in E.
+      rewrite (Hnz r wj xj Bj ltac:(lia)) in E.
       set (r1 := vadd r (vscale wj xj)) in *.
       assert (Er1 : r1 = vsub y (lin (length y) cols w)).
       { unfold r1, r. rewrite residual_cons by auto. unfold residual.
@@ -208,7 +237,7 @@ Proof.
         destruct (sweep cols a b c d f) as [w2' [r2' m']] eqn:E' end.
       inversion E; subst w2 r2' m'. clear E.
       inversion Bw2 as [|? ? Bn Bw2']; subst.
-      rewrite (guarded_update_opp e r1 wn xj He Bn ltac:(lia)) in E'.
+      rewrite (Hnz_opp r1 wn xj Bn ltac:(lia)) in E'.
       assert (Er2 : vadd r1 (vscale (- wn) xj) = residual cols (vsub y (vscale wn xj)) w).
       { unfold r1, r. rewrite residual_cons by auto. unfold residual.
         rewrite !vsub_length by (now rewrite vscale_length). apply step_residual; auto. }
@@ -245,7 +274,7 @@ Qed.
 Lemma sweep_fixed : forall cols w r wmax dwmax w2 r2 m,
   Forall (fun c => length c = length r) cols ->
   Forall2 (fun c t => sq c <= e -> sq c = 0 /\ t = 0) cols w ->
-  band_free e w ->
+  Forall good w ->
   sweep cols (map (fun c => sq c) cols) w r wmax dwmax = (w2, (r2, m)) ->
   w2 = w ->
   r2 = r /\
@@ -255,7 +284,7 @@ Proof.
   - inversion HS; subst. simpl in E. inversion E; subst. split; simpl; auto.
   - inversion HS as [|? wj ? w' Sj HS']; subst. rename w' into w.
     inversion HL as [|? ? Lx HL']; subst. inversion Bw as [|? ? Bj Bw']; subst.
-    cbn [map cd_sweep] in E.
+    cbn [map cd_sweep_gen] in E.
     destruct (abs_diff_eq R_ops (RXe e) (sq xj) (zero R_ops)) eqn:Sk.
     + apply abs_diff_eq_true in Sk. simpl in Sk.
       pose proof (sq_nonneg xj) as Nn. rewrite Rabs_right in Sk by lra.
@@ -271,7 +300,7 @@ Proof.
     + apply abs_diff_eq_false in Sk. simpl in Sk.
       assert (Pn : 0 < sq xj). { pose proof (sq_nonneg xj). rewrite Rabs_right in Sk; lra. }
       change (zero R_ops) with 0 in E.
-      rewrite (guarded_update e r wj xj He Bj ltac:(lia)) in E.
+      rewrite (Hnz r wj xj Bj ltac:(lia)) in E.
       set (r1 := vadd r (vscale wj xj)) in *.
       assert (Lr1 : length r1 = length r) by (unfold r1; rewrite vadd_length; rewrite ?vscale_length; lia).
       rewrite dot_R in E. set (tmp := Rdot xj r1) in *.
@@ -280,7 +309,7 @@ Proof.
       match type of E with context [sweep cols ?a ?b ?c ?d ?f] =>
         destruct (sweep cols a b c d f) as [w2' [r2' m']] eqn:E' end.
       injection E as Ewn Ew2 Er Em. subst w2' r2' m'.
-      rewrite Ewn in E'. rewrite (guarded_update_opp e r1 wj xj He Bj ltac:(lia)) in E'.
+      rewrite Ewn in E'. rewrite (Hnz_opp r1 wj xj Bj ltac:(lia)) in E'.
       unfold r1 in E'. rewrite vadd_vscale_cancel in E' by lia.
       destruct (IH w r _ _ w r2 m HL' HS' Bw' E' eq_refl) as [A K].
       split; auto. cbn [map length repeat kkt_all].
@@ -303,32 +332,57 @@ Proof. apply map_ext. intros c. apply dot_R. Qed.
 Lemma residual_length cols y w : Forall (fun c => length c = length y) cols -> length (residual cols y w) = length y.
 Proof. intros H. unfold residual. rewrite vsub_length; auto. symmetry. now apply lin_length. Qed.
 
+Lemma Forall_True {A} (l : list A) : Forall (fun _ => True) l.
+Proof. induction l; constructor; auto. Qed.
+
+Definition eps64 : R := / 4503599627370496.
+
+(** the code as it is (exact test `w != 0`): every input, every tolerance e >= 0 of the column-skipping test *)
 Lemma cd_sweep_noninc cc l1r pen nF e cols y w wmax dwmax w2 r2 m :
   0 <= nF * l1r * pen -> 0 <= nF * (1 - l1r) * pen -> 0 <= e ->
   Forall (fun c => length c = length y) cols -> length w = length cols ->
   cd_sweep R_ops (RXe e) cc l1r pen nF cols (map (fun c => dot R_ops cc c c) cols) w (residual cols y w) wmax dwmax
+    = (w2, (r2, m)) ->
+  let p := length cols in
+  let P v := objective cols y (repeat (nF * l1r * pen) p) (repeat (nF * (1 - l1r) * pen) p) v in
+  length w2 = length cols /\ r2 = residual cols y w2 /\ P w2 <= P w.
+Proof.
+  intros H1 H2 He HL Lw E p P. rewrite norms_R in E. unfold cd_sweep in E.
+  exact (sweep_spec cc l1r pen nF e H1 H2 He (nonzero R_ops) (fun _ => True)
+           (fun r t x _ L => exact_update r t x L) (fun r t x _ L => exact_update_opp r t x L)
+           cols w y wmax dwmax w2 r2 m HL Lw (Forall_True w) E (Forall_True w2)).
+Qed.
+
+(** ... in particular with the literal tolerance 2^-52 of the implementation *)
+Lemma cd_sweep_noninc_literal cc l1r pen nF cols y w wmax dwmax w2 r2 m :
+  0 <= nF * l1r * pen -> 0 <= nF * (1 - l1r) * pen ->
+  Forall (fun c => length c = length y) cols -> length w = length cols ->
+  cd_sweep R_ops RX cc l1r pen nF cols (map (fun c => dot R_ops cc c c) cols) w (residual cols y w) wmax dwmax
+    = (w2, (r2, m)) ->
+  let p := length cols in
+  let P v := objective cols y (repeat (nF * l1r * pen) p) (repeat (nF * (1 - l1r) * pen) p) v in
+  length w2 = length cols /\ r2 = residual cols y w2 /\ P w2 <= P w.
+Proof.
+  intros H1 H2 HL Lw E. change RX with (RXe eps64) in E.
+  assert (He : 0 <= eps64) by (unfold eps64; lra).
+  exact (cd_sweep_noninc cc l1r pen nF eps64 cols y w wmax dwmax w2 r2 m H1 H2 He HL Lw E).
+Qed.
+
+(** the code before the repair of F52 (test `abs_diff_ne!(w, 0)`): only outside the band (0, e] *)
+Lemma cd_sweep_absdiff_noninc cc l1r pen nF e cols y w wmax dwmax w2 r2 m :
+  0 <= nF * l1r * pen -> 0 <= nF * (1 - l1r) * pen -> 0 <= e ->
+  Forall (fun c => length c = length y) cols -> length w = length cols ->
+  cd_sweep_absdiff R_ops (RXe e) cc l1r pen nF cols (map (fun c => dot R_ops cc c c) cols) w (residual cols y w) wmax dwmax
     = (w2, (r2, m)) ->
   band_free e w -> band_free e w2 ->
   let p := length cols in
   let P v := objective cols y (repeat (nF * l1r * pen) p) (repeat (nF * (1 - l1r) * pen) p) v in
   length w2 = length cols /\ r2 = residual cols y w2 /\ P w2 <= P w.
 Proof.
-  intros H1 H2 He HL Lw E Bw Bw2 p P. rewrite norms_R in E.
-  exact (sweep_spec cc l1r pen nF e H1 H2 He cols w y wmax dwmax w2 r2 m HL Lw Bw E Bw2).
-Qed.
-
-Lemma cd_sweep_noninc_exact cc l1r pen nF cols y w wmax dwmax w2 r2 m :
-  0 <= nF * l1r * pen -> 0 <= nF * (1 - l1r) * pen ->
-  Forall (fun c => length c = length y) cols -> length w = length cols ->
-  cd_sweep R_ops (RXe 0) cc l1r pen nF cols (map (fun c => dot R_ops cc c c) cols) w (residual cols y w) wmax dwmax
-    = (w2, (r2, m)) ->
-  let p := length cols in
-  let P v := objective cols y (repeat (nF * l1r * pen) p) (repeat (nF * (1 - l1r) * pen) p) v in
-  length w2 = length cols /\ r2 = residual cols y w2 /\ P w2 <= P w.
-Proof.
-  intros H1 H2 HL Lw E.
-  exact (cd_sweep_noninc cc l1r pen nF 0 cols y w wmax dwmax w2 r2 m H1 H2 (Rle_refl 0) HL Lw E
-           (band_free_0 w) (band_free_0 w2)).
+  intros H1 H2 He HL Lw E Bw Bw2 p P. rewrite norms_R in E. unfold cd_sweep_absdiff in E.
+  exact (sweep_spec cc l1r pen nF e H1 H2 He (fun a => abs_diff_ne R_ops (RXe e) a 0) (fun t => t = 0 \/ e < Rabs t)
+           (fun r t x B L => guarded_update e r t x He B L) (fun r t x B L => guarded_update_opp e r t x He B L)
+           cols w y wmax dwmax w2 r2 m HL Lw Bw E Bw2).
 Qed.
 
 Lemma F2_length {A B} (Q : A -> B -> Prop) : forall l1 l2, Forall2 Q l1 l2 -> length l1 = length l2.
@@ -337,7 +391,7 @@ Proof. induction 1; simpl; auto. Qed.
 Lemma cd_fixed_point_is_kkt cc l1r pen nF e cols y w wmax dwmax r2 m :
   0 <= nF * l1r * pen -> 0 <= nF * (1 - l1r) * pen -> 0 <= e ->
   Forall (fun c => length c = length y) cols ->
-  Forall2 (fun c t => sq c <= e -> sq c = 0 /\ t = 0) cols w -> band_free e w ->
+  Forall2 (fun c t => sq c <= e -> sq c = 0 /\ t = 0) cols w ->
   cd_sweep R_ops (RXe e) cc l1r pen nF cols (map (fun c => dot R_ops cc c c) cols) w (residual cols y w) wmax dwmax
     = (w, (r2, m)) ->
   let p := length cols in
@@ -346,9 +400,11 @@ Lemma cd_fixed_point_is_kkt cc l1r pen nF e cols y w wmax dwmax r2 m :
   kkt_all (map (fun c => Rdot c (residual cols y w)) cols) l1s l2s w (repeat 0 p)
   /\ forall w', length w' = length w -> objective cols y l1s l2s w' >= objective cols y l1s l2s w.
 Proof.
-  intros H1 H2 He HL HS Bw E p l1s l2s. rewrite norms_R in E.
+  intros H1 H2 He HL HS E p l1s l2s. rewrite norms_R in E. unfold cd_sweep in E.
   assert (HLr : Forall (fun c => length c = length (residual cols y w)) cols) by (now rewrite residual_length).
-  destruct (sweep_fixed cc l1r pen nF e H1 H2 He cols w _ wmax dwmax w r2 m HLr HS Bw E eq_refl) as [_ K].
+  destruct (sweep_fixed cc l1r pen nF e H1 H2 He (nonzero R_ops) (fun _ => True)
+              (fun r t x _ L => exact_update r t x L) (fun r t x _ L => exact_update_opp r t x L)
+              cols w _ wmax dwmax w r2 m HLr HS (Forall_True w) E eq_refl) as [_ K].
   split; [exact K|]. intros w' L.
   apply kkt_optimal; auto.
   assert (Lw : length w = length cols) by (symmetry; eapply F2_length; eauto).
@@ -376,25 +432,25 @@ Lemma cd_fixed_point_is_kkt_exact cc l1r pen nF cols y w wmax dwmax r2 m :
 Proof.
   intros H1 H2 HL HS E.
   exact (cd_fixed_point_is_kkt cc l1r pen nF 0 cols y w wmax dwmax r2 m H1 H2 (Rle_refl 0) HL
-           (zero_cols_exact cols w HS) (band_free_0 w) E).
+           (zero_cols_exact cols w HS) E).
 Qed.
 
-(** skipped columns keep their coefficient: starting from zeros, the coefficients of zero columns stay zero *)
-Lemma sweep_keeps_skipped cc l1r pen nF e : forall cols w r wmax dwmax w2 r2 m,
+(** skipped columns keep their coefficient: starting from zeros, the coefficients of skipped columns stay zero *)
+Lemma sweep_keeps_skipped cc l1r pen nF e nz : forall cols w r wmax dwmax w2 r2 m,
   length w = length cols ->
-  cd_sweep R_ops (RXe e) cc l1r pen nF cols (map (fun c => sq c) cols) w r wmax dwmax = (w2, (r2, m)) ->
+  cd_sweep_gen R_ops (RXe e) cc l1r pen nF nz cols (map (fun c => sq c) cols) w r wmax dwmax = (w2, (r2, m)) ->
   Forall2 (fun c t => sq c <= e -> t = 0) cols w -> Forall2 (fun c t => sq c <= e -> t = 0) cols w2.
 Proof.
   induction cols as [|xj cols IH]; intros w r wmax dwmax w2 r2 m Lw E HS.
   - destruct w; try discriminate. simpl in E. inversion E; subst. constructor.
   - destruct w as [|wj w]; try discriminate. inversion HS as [|? ? ? ? Sj HS']; subst.
-    cbn [map cd_sweep] in E.
+    cbn [map cd_sweep_gen] in E.
     destruct (abs_diff_eq R_ops (RXe e) (sq xj) (zero R_ops)) eqn:Sk.
-    + match type of E with context [cd_sweep _ _ _ _ _ _ cols ?a ?b ?c ?d ?f] =>
-        destruct (cd_sweep R_ops (RXe e) cc l1r pen nF cols a b c d f) as [w2' [r2' m']] eqn:E' end.
+    + match type of E with context [cd_sweep_gen _ _ _ _ _ _ _ cols ?a ?b ?c ?d ?f] =>
+        destruct (cd_sweep_gen R_ops (RXe e) cc l1r pen nF nz cols a b c d f) as [w2' [r2' m']] eqn:E' end.
       inversion E; subst. constructor; auto. eapply IH; eauto.
-    + match type of E with context [cd_sweep _ _ _ _ _ _ cols ?a ?b ?c ?d ?f] =>
-        destruct (cd_sweep R_ops (RXe e) cc l1r pen nF cols a b c d f) as [w2' [r2' m']] eqn:E' end.
+    + match type of E with context [cd_sweep_gen _ _ _ _ _ _ _ cols ?a ?b ?c ?d ?f] =>
+        destruct (cd_sweep_gen R_ops (RXe e) cc l1r pen nF nz cols a b c d f) as [w2' [r2' m']] eqn:E' end.
       inversion E; subst. constructor.
       * apply abs_diff_eq_false in Sk. simpl in Sk. pose proof (sq_nonneg xj). rewrite Rabs_right in Sk by lra.
         intros; lra.
@@ -402,13 +458,14 @@ Proof.
 Qed.
 
 (* ------------------------------------------------------------------------------------------- *)
-(** * the whole loop (exact reading of the tests, e = 0) *)
+(** * the whole loop (every tolerance e >= 0 of the column-skipping test) *)
 Section Loop.
-Variables (cc : bool) (l1r pen nF : R) (cols : list (list R)) (y : list R).
+Variables (cc : bool) (l1r pen nF e : R) (cols : list (list R)) (y : list R).
 Let l1 := nF * l1r * pen.
 Let l2 := nF * (1 - l1r) * pen.
 Hypothesis H1 : 0 <= l1.
 Hypothesis H2 : 0 <= l2.
+Hypothesis He : 0 <= e.
 Hypothesis HL : Forall (fun c => length c = length y) cols.
 Let p := length cols.
 Let P v := objective cols y (repeat l1 p) (repeat l2 p) v.
@@ -418,7 +475,7 @@ Variable g0 : R.
 Definition gap_good (w : list R) (g : R) : Prop := g = g0 \/ forall v, length v = p -> P w - P v <= g.
 
 Lemma gap_bound' w v : length w = p -> length v = p ->
-  P w - P v <= duality_gap R_ops (RXe 0) cc l1r pen nF cols y w (residual cols y w).
+  P w - P v <= duality_gap R_ops (RXe e) cc l1r pen nF cols y w (residual cols y w).
 Proof.
   intros Lw Lv. rewrite duality_gap_RXe.
   assert (A : 0 <= l1r * pen * nF) by (unfold l1 in H1; lra).
@@ -431,27 +488,27 @@ Qed.
 
 Lemma cd_loop_spec maxit tolY dwtol : forall fuel w r gap steps w' g' s',
   length w = p -> r = residual cols y w -> gap_good w gap -> (N.of_nat fuel + steps = maxit)%N ->
-  cd_loop R_ops (RXe 0) cc l1r pen nF fuel maxit cols (map (fun c => dot R_ops cc c c) cols) y tolY dwtol w r gap steps
+  cd_loop R_ops (RXe e) cc l1r pen nF fuel maxit cols (map (fun c => dot R_ops cc c c) cols) y tolY dwtol w r gap steps
     = (w', (g', s')) ->
   length w' = p /\ P w' <= P w /\ gap_good w' g' /\ ((s' < maxit)%N -> g' < tolY).
 Proof.
   induction fuel as [|fuel IH]; intros w r gap steps w' g' s' Lw Er G Hs E.
   - simpl in E. inversion E; subst. repeat split; auto; try lra. intros; lia.
   - cbn [cd_loop] in E.
-    destruct (cd_sweep R_ops (RXe 0) cc l1r pen nF cols (map (fun c => dot R_ops cc c c) cols) w r (zero R_ops) (zero R_ops))
+    destruct (cd_sweep R_ops (RXe e) cc l1r pen nF cols (map (fun c => dot R_ops cc c c) cols) w r (zero R_ops) (zero R_ops))
       as [w1 [r1 [wmax dwmax]]] eqn:Es.
     rewrite Er in Es.
-    destruct (cd_sweep_noninc_exact cc l1r pen nF cols y w _ _ w1 r1 _ H1 H2 HL Lw Es) as (L1 & R1 & D1).
+    destruct (cd_sweep_noninc cc l1r pen nF e cols y w _ _ w1 r1 _ H1 H2 He HL Lw Es) as (L1 & R1 & D1).
     fold l1 l2 p in D1. fold (P w1) (P w) in D1. subst r1.
     assert (G1 : gap_good w1 gap).
     { destruct G as [G | G]; [left; auto | right]. intros v Lv. specialize (G v Lv). lra. }
     assert (Hs1 : (N.of_nat fuel + N.succ steps = maxit)%N) by lia.
     match type of E with (if ?b then _ else _) = _ => destruct b end.
     + cbv zeta in E.
-      destruct (ltb R_ops (duality_gap R_ops (RXe 0) cc l1r pen nF cols y w1 (residual cols y w1)) tolY) eqn:Lt.
+      destruct (ltb R_ops (duality_gap R_ops (RXe e) cc l1r pen nF cols y w1 (residual cols y w1)) tolY) eqn:Lt.
       * inversion E; subst w' g' s'. simpl in Lt. apply Rltb_true in Lt.
         repeat split; auto. right. intros v Lv. apply gap_bound'; auto.
-      * assert (G2 : gap_good w1 (duality_gap R_ops (RXe 0) cc l1r pen nF cols y w1 (residual cols y w1))).
+      * assert (G2 : gap_good w1 (duality_gap R_ops (RXe e) cc l1r pen nF cols y w1 (residual cols y w1))).
         { right. intros v Lv. apply gap_bound'; auto. }
         destruct (IH w1 _ _ _ w' g' s' L1 eq_refl G2 Hs1 E) as (A & B & C & D).
         repeat split; auto. lra.
@@ -474,25 +531,25 @@ Proof.
   clear. induction y as [|y0 y IH]; simpl; auto. f_equal; [lra|exact IH].
 Qed.
 
-(** the model of `coordinate_descent` over the reals (tests read exactly): the returned point is never
-    worse than the starting point w = 0, its reported gap - unless it is still the initial value
-    1 + tol because the stopping test never fired - bounds its suboptimality against every other
-    coefficient vector even when the iteration budget ran out (the gap is then one of an earlier,
-    worse iterate), and a run that stopped early has gap < tol * |y|^2 *)
-Lemma cd_result_certified cc l1r pen nF cols y tol maxit w g s :
-  0 <= nF * l1r * pen -> 0 <= nF * (1 - l1r) * pen ->
+(** the model of `coordinate_descent` over the reals, for every tolerance e >= 0 of the column-skipping test
+    (the literal 2^-52 included): the returned point is never worse than the starting point w = 0, its reported
+    gap - unless it is still the initial value 1 + tol because the stopping test never fired - bounds its
+    suboptimality against every other coefficient vector even when the iteration budget ran out (the gap is
+    then one of an earlier, worse iterate), and a run that stopped early has gap < tol * |y|^2 *)
+Lemma cd_result_certified cc l1r pen nF e cols y tol maxit w g s :
+  0 <= nF * l1r * pen -> 0 <= nF * (1 - l1r) * pen -> 0 <= e ->
   Forall (fun c => length c = length y) cols ->
-  coordinate_descent R_ops (RXe 0) cc l1r pen nF cols y tol maxit = (w, (g, s)) ->
+  coordinate_descent R_ops (RXe e) cc l1r pen nF cols y tol maxit = (w, (g, s)) ->
   let p := length cols in
   let P v := objective cols y (repeat (nF * l1r * pen) p) (repeat (nF * (1 - l1r) * pen) p) v in
   length w = p /\ P w <= P (repeat 0 p)
   /\ (g = 1 + tol \/ forall v, length v = p -> P w - P v <= g)
   /\ ((s < maxit)%N -> g < tol * sq y).
 Proof.
-  intros H1 H2 HL E p P. unfold coordinate_descent in E. cbv zeta in E.
+  intros H1 H2 He HL E p P. unfold coordinate_descent in E. cbv zeta in E.
   assert (Z' : map (fun _ : list R => 0) cols = repeat 0 p).
   { unfold p. clear. induction cols; simpl; auto. now rewrite IHcols. }
-  pose proof (cd_loop_spec cc l1r pen nF cols y H1 H2 HL (add R_ops (one R_ops) tol) maxit
+  pose proof (cd_loop_spec cc l1r pen nF e cols y H1 H2 He HL (add R_ops (one R_ops) tol) maxit
                 (mul R_ops tol (dot R_ops true y y)) tol (N.to_nat maxit)
                 (map (fun _ => 0) cols) y (add R_ops (one R_ops) tol) 0%N w g s
                 ltac:(now rewrite map_length) ltac:(now rewrite residual_zeros)
@@ -501,7 +558,22 @@ Proof.
   repeat split; auto.
 Qed.
 
-(** the coefficients of zero columns stay zero along the loop (they are skipped) *)
+Lemma cd_result_certified_literal cc l1r pen nF cols y tol maxit w g s :
+  0 <= nF * l1r * pen -> 0 <= nF * (1 - l1r) * pen ->
+  Forall (fun c => length c = length y) cols ->
+  coordinate_descent R_ops RX cc l1r pen nF cols y tol maxit = (w, (g, s)) ->
+  let p := length cols in
+  let P v := objective cols y (repeat (nF * l1r * pen) p) (repeat (nF * (1 - l1r) * pen) p) v in
+  length w = p /\ P w <= P (repeat 0 p)
+  /\ (g = 1 + tol \/ forall v, length v = p -> P w - P v <= g)
+  /\ ((s < maxit)%N -> g < tol * sq y).
+Proof.
+  intros H1 H2 HL E. change RX with (RXe eps64) in E.
+  assert (He : 0 <= eps64) by (unfold eps64; lra).
+  exact (cd_result_certified cc l1r pen nF eps64 cols y tol maxit w g s H1 H2 He HL E).
+Qed.
+
+(** the coefficients of skipped columns stay zero along the loop *)
 Lemma cd_loop_skipped cc l1r pen nF e maxit cols y tolY dwtol : forall fuel w r gap steps w' g' s',
   length w = length cols ->
   cd_loop R_ops (RXe e) cc l1r pen nF fuel maxit cols (map (fun c => dot R_ops cc c c) cols) y tolY dwtol w r gap steps
@@ -513,8 +585,8 @@ Proof.
   - cbn [cd_loop] in E.
     destruct (cd_sweep R_ops (RXe e) cc l1r pen nF cols (map (fun c => dot R_ops cc c c) cols) w r (zero R_ops) (zero R_ops))
       as [w1 [r1 [wmax dwmax]]] eqn:Es.
-    rewrite norms_R in Es.
-    pose proof (sweep_keeps_skipped cc l1r pen nF e cols w r _ _ w1 r1 _ Lw Es HS) as HS1.
+    rewrite norms_R in Es. unfold cd_sweep in Es.
+    pose proof (sweep_keeps_skipped cc l1r pen nF e _ cols w r _ _ w1 r1 _ Lw Es HS) as HS1.
     assert (L1 : length w1 = length cols) by (symmetry; eapply F2_length; eauto).
     match type of E with (if ?b then _ else _) = _ => destruct b end.
     + cbv zeta in E.
@@ -548,11 +620,10 @@ Example ex_cd_fixed_point : exists r2 m,
   cd_sweep R_ops (RXe 0) false 1 (1 / 10) 3 [[-1; 0; 1]] (map (fun c => dot R_ops false c c) [[-1; 0; 1]]) [17 / 20]
     (residual [[-1; 0; 1]] [-1; 0; 1] [17 / 20]) 0 0 = ([17 / 20], (r2, m)).
 Proof.
-  rewrite norms_R. cbn [map cd_sweep].
+  rewrite norms_R. unfold cd_sweep. cbn [map cd_sweep_gen].
   replace (abs_diff_eq R_ops (RXe 0) (sq [-1; 0; 1]) (zero R_ops)) with false
     by (symmetry; apply abs_diff_eq_false; unfold sq; simpl; rewrite Rabs_right; lra).
-  change (zero R_ops) with 0.
-  rewrite guarded_update; [|lra|right; rewrite Rabs_right; lra|reflexivity].
+  rewrite exact_update by reflexivity.
   rewrite dot_R, cd_new_w_RXe.
   match goal with |- context [cd_new_w R_ops RX _ _ _ ?t ?n] => set (tmp := t); set (nj := n) end.
   assert (Et : tmp = 2) by (unfold tmp, residual, vsub, vadd, vscale; simpl; field).
@@ -564,17 +635,17 @@ Qed.
 Example ex_cd_fixed_point_hyp : Forall2 (fun c t => sq c = 0 -> t = 0) [[-1; 0; 1]] [17 / 20].
 Proof. repeat constructor. unfold sq; simpl. intros; lra. Qed.
 
-(** one step of the sweep when both the old and the new coefficient are within the tolerance of zero:
-    the coefficient is stored, the residual is left as it was *)
+(** the code before the repair of F52: one step of the sweep when both the old and the new coefficient are
+    within the tolerance of zero - the coefficient is stored, the residual is left as it was *)
 Lemma sweep_cons_stale e cc l1r pen nF xj cols norms wj w r wmax dwmax : 0 <= e ->
   e < sq xj -> Rabs wj <= e ->
   let wn := cd_new_w R_ops RX l1r pen nF (Rdot xj r) (sq xj) in
   Rabs wn <= e ->
-  cd_sweep R_ops (RXe e) cc l1r pen nF (xj :: cols) (sq xj :: norms) (wj :: w) r wmax dwmax
-  = let '(w2, rest) := cd_sweep R_ops (RXe e) cc l1r pen nF cols norms w r (Rmax wmax (Rabs wn)) (Rmax dwmax (Rabs (wn - wj)))
+  cd_sweep_absdiff R_ops (RXe e) cc l1r pen nF (xj :: cols) (sq xj :: norms) (wj :: w) r wmax dwmax
+  = let '(w2, rest) := cd_sweep_absdiff R_ops (RXe e) cc l1r pen nF cols norms w r (Rmax wmax (Rabs wn)) (Rmax dwmax (Rabs (wn - wj)))
     in (wn :: w2, rest).
 Proof.
-  intros He Hn Hw wn Hwn. cbn [cd_sweep].
+  intros He Hn Hw wn Hwn. unfold cd_sweep_absdiff. cbn [cd_sweep_gen].
   replace (abs_diff_eq R_ops (RXe e) (sq xj) (zero R_ops)) with false
     by (symmetry; apply abs_diff_eq_false; pose proof (sq_nonneg xj); rewrite Rabs_right; lra).
   unfold abs_diff_ne.
@@ -583,8 +654,6 @@ Proof.
   replace (abs_diff_eq R_ops (RXe e) wn (zero R_ops)) with true by (symmetry; now apply abs_diff_eq_true).
   reflexivity.
 Qed.
-
-Definition eps64 : R := / 4503599627370496.
 
 (** Finding F50 as a statement about the model with the literal tolerance: a non-zero column of squared norm
     2^-54 is skipped, so w = 0 is a fixed point of the sweep although w = 2^27 fits the target exactly *)
@@ -595,7 +664,7 @@ Lemma cd_fixed_point_eps_refuted :
     /\ objective cols y (repeat 0 1) (repeat 0 1) w' < objective cols y (repeat 0 1) (repeat 0 1) w.
 Proof.
   exists [[/ 134217728]], [1], [0], [134217728]. change RX with (RXe eps64).
-  rewrite norms_R. cbn [map cd_sweep].
+  rewrite norms_R. unfold cd_sweep. cbn [map cd_sweep_gen].
   replace (abs_diff_eq R_ops (RXe eps64) (sq [/ 134217728]) (zero R_ops)) with true.
   2:{ symmetry. apply abs_diff_eq_true. unfold sq, eps64; simpl. rewrite Rabs_right; lra. }
   eexists. eexists. split; [reflexivity|]. split; [reflexivity|].
@@ -603,12 +672,13 @@ Proof.
   replace (1 + -1 * (134217728 * / 134217728 + 0)) with 0 by field. lra.
 Qed.
 
-(** the band (0, 2^-52]: three copies of the column (1), target 2^-52, no penalty.  Every coordinate update
-    returns 2^-52, which `abs_diff_ne!(w_j, 0)` treats as zero: the coefficients are stored but the residual
-    is never updated, and the objective of the returned point is four times that of the starting point *)
+(** Finding F52 (repaired in the code, kept as a statement about the pre-repair sweep): the band (0, 2^-52].
+    Three copies of the column (1), target 2^-52, no penalty.  Every coordinate update returns 2^-52, which
+    `abs_diff_ne!(w_j, 0)` treated as zero: the coefficients were stored but the residual was never updated,
+    and the objective of the returned point is four times that of the starting point *)
 Lemma cd_sweep_band_refuted :
   exists (cols : list (list R)) (y w w2 r2 : list R) (m : R * R),
-    cd_sweep R_ops RX false 0 0 1 cols (map (fun c => dot R_ops false c c) cols) w (residual cols y w) 0 0 = (w2, (r2, m))
+    cd_sweep_absdiff R_ops RX false 0 0 1 cols (map (fun c => dot R_ops false c c) cols) w (residual cols y w) 0 0 = (w2, (r2, m))
     /\ r2 <> residual cols y w2
     /\ objective cols y (repeat 0 3) (repeat 0 3) w < objective cols y (repeat 0 3) (repeat 0 3) w2.
 Proof.
@@ -625,15 +695,48 @@ Proof.
   assert (Ew1 : cd_new_w R_ops RX 0 0 1 (Rdot [1] [eps64]) (sq [1]) = eps64).
   { rewrite Ew, S1. field. }
   assert (St : forall cols norms w wmax dwmax,
-     cd_sweep R_ops (RXe eps64) false 0 0 1 ([1] :: cols) (sq [1] :: norms) (0 :: w) [eps64] wmax dwmax
-     = let '(w2, rest) := cd_sweep R_ops (RXe eps64) false 0 0 1 cols norms w [eps64]
+     cd_sweep_absdiff R_ops (RXe eps64) false 0 0 1 ([1] :: cols) (sq [1] :: norms) (0 :: w) [eps64] wmax dwmax
+     = let '(w2, rest) := cd_sweep_absdiff R_ops (RXe eps64) false 0 0 1 cols norms w [eps64]
                             (Rmax wmax (Rabs eps64)) (Rmax dwmax (Rabs (eps64 - 0)))
        in (eps64 :: w2, rest)).
   { intros. rewrite sweep_cons_stale; rewrite ?Ew1; auto; try lra.
     - rewrite S1. unfold eps64. lra.
     - rewrite Rabs_R0. lra.
     - rewrite Rabs_right; lra. }
-  rewrite !St. cbn [cd_sweep]. eexists. split; [reflexivity|]. split.
+  rewrite !St. unfold cd_sweep_absdiff. cbn [cd_sweep_gen]. eexists. split; [reflexivity|]. split.
   - unfold residual, vsub, vadd, vscale; simpl. intros C. inversion C as [C1]. lra.
   - unfold objective, residual, vsub, vadd, vscale, sq; simpl. unfold pen1. nra.
+Qed.
+
+(** ... while the code as it is handles the same input correctly: the repaired sweep is a descent step for
+    every input ([cd_sweep_noninc_literal]); on the witness it returns (2^-52, 0, 0) with residual 0 *)
+Example ex_band_repaired : exists m,
+  cd_sweep R_ops RX false 0 0 1 [[1]; [1]; [1]] (map (fun c => dot R_ops false c c) [[1]; [1]; [1]]) [0; 0; 0]
+    (residual [[1]; [1]; [1]] [eps64] [0; 0; 0]) 0 0 = ([eps64; 0; 0], ([0], m)).
+Proof.
+  change RX with (RXe eps64). rewrite norms_R.
+  assert (Pe : 0 < eps64) by (unfold eps64; lra).
+  assert (Er : residual [[1]; [1]; [1]] [eps64] [0; 0; 0] = [eps64]).
+  { unfold residual, vsub, vadd, vscale; simpl. f_equal. lra. }
+  rewrite Er. cbn [map].
+  assert (S1 : sq [1] = 1) by (unfold sq; simpl; ring).
+  assert (Sk : abs_diff_eq R_ops (RXe eps64) (sq [1]) (zero R_ops) = false).
+  { apply abs_diff_eq_false. rewrite S1, Rabs_right by lra. unfold eps64. lra. }
+  unfold cd_sweep. cbn [cd_sweep_gen]. rewrite !Sk.
+  rewrite !exact_update, !exact_update_opp by reflexivity.
+  rewrite !dot_R, !cd_new_w_RXe.
+  assert (V0 : vadd [eps64] (vscale 0 [1]) = [eps64]) by (unfold vadd, vscale; simpl; f_equal; lra).
+  rewrite V0.
+  assert (Ew1 : cd_new_w R_ops RX 0 0 1 (Rdot [1] [eps64]) (sq [1]) = eps64).
+  { rewrite soft_pos by (simpl; lra). rewrite S1. simpl. field. }
+  rewrite Ew1.
+  assert (V1 : vadd [eps64] (vscale (- eps64) [1]) = [0]) by (unfold vadd, vscale; simpl; f_equal; lra).
+  rewrite V1.
+  assert (V2 : vadd [0] (vscale 0 [1]) = [0]) by (unfold vadd, vscale; simpl; f_equal; lra).
+  assert (V3 : vadd [0] (vscale (- 0) [1]) = [0]) by (unfold vadd, vscale; simpl; f_equal; lra).
+  assert (Ew0 : cd_new_w R_ops RX 0 0 1 (Rdot [1] [0]) (sq [1]) = 0).
+  { unfold cd_new_w; simpl. rewrite Rabs_right by lra. unfold Rmax. destruct (Rle_dec _ _); unfold Rdiv; ring. }
+  repeat first [ rewrite exact_update by reflexivity | rewrite exact_update_opp by reflexivity
+               | rewrite dot_R | rewrite cd_new_w_RXe | rewrite V2 | rewrite V3 | rewrite Ew0 ].
+  eexists. reflexivity.
 Qed.
